@@ -143,7 +143,7 @@ def make_jobs(tier, seed):
     chunk = 4
     for i in range(0, len(names), chunk):
         jobs.append({'names': names[i:i + chunk], 'seed': rng.randrange(1 << 30), 'mode': 'bc',
-                     'nparams': 5 if tier == 'quick' else 14, 'n': 160,
+                     'nparams': 5 if tier == 'quick' else 30, 'n': 160,
                      'kinds': ['walk', 'spikes', 'gappy'] if tier == 'quick' else ['walk', 'trend', 'flat', 'spikes', 'alternating', 'gappy', 'lattice'],
                      'want_sample': i == 0})
     if tier == 'thorough':
